@@ -18,6 +18,7 @@ Theorem C12_constants_match_source :
   gen_c12_strict_cap_ns = seven_days_ns /\
   gen_c12_strict_cap_ns = seven_days_ms * 1000000 /\
   gen_c12_strict_unsigned = strict_unsigned /\
+  gen_c12_signatures_per_entry = signatures_per_entry /\
   gen_c12_publickeynotexpired = public_key_not_expired /\
   gen_c12_publickeynotvalid = public_key_not_valid /\
   gen_c12_supported_prefix = supported_prefix /\
